@@ -189,6 +189,19 @@ CHECKS["C06"] = (True, "exploration",
     "data differ, and every list element must be accounted for once.",
     TRUST + "The harness reads the private DiffEntry._rhs.", "6/C06")
 
+CHECKS["C07"] = (True, "exploration",
+    "enumeration of documents x expressions x option sets against an "
+    "independent reference search; re-query round-trip of every printed path",
+    "Every set-free document <= 3 nodes (some with escapable keys) and a "
+    "family with scalar anchors/aliases x 9 operators x inversion x 6 terms "
+    "x {values, keys+values, keys only} x alias inclusion x anchor-name "
+    "search x expansion x both notations (~7e5 searches): each printed path "
+    "must resolve, in its notation, to the one matched node; the reported "
+    "set must equal the reference search's (sound and complete, aliases "
+    "counted only on request); expansion must give the leaf descendants.",
+    TRUST + "search_for_paths() is driven directly; the CLI wrapper "
+    "(printing, de-duplication) is exercised by C16.", "6/C07")
+
 ALL = ["C%02d" % i for i in range(1, 20)]
 
 
